@@ -524,6 +524,20 @@ def items_for(nmax, ghost_max, thorough):
     return items
 
 
+def replay(ctx, data):
+    """Re-run the one history of a recorded violation; True if its signature is not reproduced."""
+    d = data["first"]
+    dag = tuple(tuple(p) for p in d["dag"])
+    if d.get("vcs") == "git":
+        acc = _work_git([dag])
+    else:
+        acc = _work([(dag, frozenset(d.get("ghosts", ())), len(dag) >= 5)])
+    hit = [v for v in acc.violations if v[0] == data["signature"]]
+    for sig, det in hit:
+        print("  ", sig, {k: det[k] for k in det if k not in ("dag",)})
+    return not hit
+
+
 def run(ctx):
     N = ctx.q(4, 5)
     GN = ctx.q(3, 4)
